@@ -4,6 +4,7 @@ package main
 // reader over library- and boxo-written shards (C02 C08 C10 C11 C15 C05 C06 C12 C13 C20).
 
 import (
+	"time"
 	"context"
 	"encoding/binary"
 	"encoding/json"
@@ -421,6 +422,43 @@ func readShard(rep *Report, in HamtInput, st *Store, root cid.Cid, expected map[
 				if ix, ok := index[c.KeyString()]; !ok || !isShard(ix) {
 					fail("C06", "iter-loads-entry", "iteration requested a block that is not a shard of the directory", nil, c.String())
 					break
+				}
+			}
+		}
+	}
+	// ---- polling an exhausted iterator must not disturb Length (no per-node state may be derived from call counts)
+	if !faulty && in.Mode != "hostile" {
+		if n3, err := fresh(); err == nil {
+			got := []int64{}
+			o := guard(func() error {
+				it := n3.MapIterator()
+				for !it.Done() {
+					if _, _, err := it.Next(); err != nil {
+						return err
+					}
+				}
+				_, _, _ = it.Next() // one call past the end: an error, nothing else
+				got = append(got, n3.Length())
+				if sh, ok := n3.(hamt.UnixFSHAMTShard); ok {
+					nit := sh.Iterator()
+					for guardN := 0; guardN < 4*len(order)+len(expected)+16; guardN++ {
+						k, _ := nit.Next()
+						if k == nil {
+							break
+						}
+					}
+					got = append(got, n3.Length())
+				}
+				return nil
+			})
+			if o.Class == "panic" {
+				fail("C13", "overread-panic", "polling an exhausted directory iterator panicked", "error", "panic")
+			} else {
+				for _, l := range got {
+					if l != int64(len(expected)) {
+						fail("C02", "length-after-iteration", "Length read after an iterator was polled past its end is not the entry count", len(expected), got)
+						break
+					}
 				}
 			}
 		}
@@ -925,6 +963,54 @@ func scnHamt(rep *Report, rng *Rng, tier string, outdir string) {
 			add(HamtInput{Mode: "sharded", Fanout: f, Entries: mkEntries(ns), Probes: probesFor(ns)})
 		}
 	}
+	// keys that are a member name with (part of) a bucket prefix in front, or a proper suffix of a member name:
+	// non-members that a careless prefix comparison would accept when their hash walks to the member's slot
+	for _, f := range []int{8, 16, 256} {
+		ns := names(40)
+		var ps []string
+		member := map[string]bool{}
+		for _, n := range ns {
+			member[n] = true
+		}
+		for _, n := range ns {
+			for _, d := range "0123456789ABCDEF" {
+				ps = append(ps, string(d)+n)
+			}
+			if f == 256 {
+				for _, d := range "0123456789ABCDEF" {
+					ps = append(ps, "0"+string(d)+n, string(d)+"0"+n)
+				}
+			}
+			for i := 1; i < len(n) && i < 12; i++ {
+				ps = append(ps, n[i:])
+			}
+		}
+		var probes []string
+		seen := map[string]bool{}
+		for _, k := range ps {
+			if !member[k] && !seen[k] {
+				seen[k] = true
+				probes = append(probes, k)
+			}
+		}
+		add(HamtInput{Mode: "sharded", Fanout: f, Entries: mkEntries(ns), Probes: probes, NoModel: true})
+	}
+	// several entries pointing at the same target (identical files in one folder): every link still counts in the sizes
+	{
+		dup := func(ns []string) []HEntry {
+			es := make([]HEntry, len(ns))
+			for i, n := range ns {
+				id := i % 3
+				es[i] = HEntry{Name: n, ID: id, Tsize: int64(1000 + 17*id)}
+			}
+			return es
+		}
+		for _, n := range []int{2, 3, 9, 40} {
+			ns := names(n)
+			add(HamtInput{Mode: "auto", Entries: dup(ns), Probes: probesFor(ns)[:4]})
+			add(HamtInput{Mode: "sharded", Fanout: 16, Entries: dup(ns), Probes: probesFor(ns)[:4]})
+		}
+	}
 	// same name twice: the builder must fail cleanly ("too deep"), not mis-build
 	add(HamtInput{Mode: "sharded", Fanout: 256, Entries: []HEntry{{Name: "dup", ID: 1, Tsize: 1}, {Name: "dup", ID: 2, Tsize: 2}}})
 	// missing shards: every single shard of a few directories, and subsets
@@ -971,6 +1057,63 @@ func scnHamt(rep *Report, rng *Rng, tier string, outdir string) {
 		key, _ := json.Marshal(in)
 		rep.Count("C13", string(key), len(in.Hostile.Links) > 0, in)
 		rep.Dist("C13", "hostile-shard")
+	}
+	// a narrow DAG of shards whose levels each link twice to the same child, ending in an empty shard: 41 small
+	// blocks whose unfolding has 2^40 leaves.  Length() (and the preloading reification built on it) memoises the
+	// count per child block and must answer at once; lookups are bounded by the hash.  (Iteration is not run here:
+	// it legitimately walks the unfolded DAG.)
+	for _, fanD := range []uint64{8, 256} {
+		st := NewStore()
+		u := func(v uint64) *uint64 { return &v }
+		pad := len(fmt.Sprintf("%X", fanD-1))
+		bits := make([]byte, fanD/8)
+		cur := buildHostile(st, &HShard{Type: 5, Fanout: u(fanD), HashType: u(0x22), Bits: bits, HasBits: true})
+		bits2 := make([]byte, fanD/8)
+		bits2[len(bits2)-1] = 0x03
+		for lvl := 0; lvl < 40; lvl++ {
+			c := cur
+			n0, n1 := fmt.Sprintf("%0*X", pad, 0), fmt.Sprintf("%0*X", pad, 1)
+			cur = buildHostile(st, &HShard{Type: 5, Fanout: u(fanD), HashType: u(0x22), Bits: bits2, HasBits: true,
+				Links: []HLink{{Name: &n0, Built: &c}, {Name: &n1, Built: &c}}})
+		}
+		in := map[string]interface{}{"mode": "hostile-diamond", "fanout": fanD, "levels": 40}
+		done := make(chan string, 1)
+		go func() {
+			defer func() {
+				if r := recover(); r != nil {
+					done <- "panic"
+				}
+			}()
+			n, ls, err := loadRoot(st, cur)
+			if err != nil {
+				done <- "load: " + err.Error()
+				return
+			}
+			nd, err := unixfsnode.Reify(ipld.LinkContext{Ctx: context.Background()}, n, ls)
+			if err != nil {
+				done <- "ok" // refusing the DAG is fine
+				return
+			}
+			_ = nd.Length()
+			_ = nd.Length()
+			for _, k := range []string{"a", "name", "zz"} {
+				_, _ = nd.LookupByString(k)
+			}
+			if _, err := ls.KnownReifiers["unixfs-preload"](ipld.LinkContext{Ctx: context.Background()}, n, ls); err != nil {
+				_ = err
+			}
+			done <- "ok"
+		}()
+		select {
+		case r := <-done:
+			if r == "panic" {
+				rep.Fail("C13", "hamt/diamond-panic", "Length / lookup / preload on a DAG with shared child shards panicked", in, "value or error", "panic")
+			}
+		case <-time.After(20 * time.Second):
+			rep.Fail("C13", "hamt/diamond-unbounded", "Length / lookup / preload on 41 blocks (levels linking twice to the same child, empty leaf) did not finish in 20 s: the count of a shared child is recomputed per path", in, "finishes (one count per block)", "still running")
+		}
+		rep.Count("C13", fmt.Sprint("diamond-", fanD), true, in)
+		rep.Dist("C13", "hostile-diamond")
 	}
 	// reference-written shards after insert/remove histories
 	nHist := 10
@@ -1033,6 +1176,7 @@ type HLink struct {
 	Child   *HShard `json:"child,omitempty"` // nil: an entry target
 	Raw     bool    `json:"raw,omitempty"`   // the target is a raw block
 	Missing bool    `json:"missing,omitempty"`
+	Built   *cid.Cid `json:"-"` // an already stored block (for DAGs with shared children)
 }
 type HShard struct {
 	Type     int64   `json:"type"`
@@ -1052,6 +1196,8 @@ func buildHostile(st *Store, h *HShard) cid.Cid {
 				l := l
 				var c cid.Cid
 				switch {
+				case l.Built != nil:
+					c = *l.Built
 				case l.Child != nil:
 					c = buildHostile(st, l.Child)
 				case l.Raw:
